@@ -5,6 +5,7 @@ import pickle
 import random
 import shutil
 import tempfile
+import types
 
 import common
 import gen
@@ -49,6 +50,34 @@ def all_nodes(tree):
     return out
 
 
+_ATOMS = (str, bytes, int, float, bool, type(None), type, types.FunctionType, types.ModuleType,
+          types.BuiltinFunctionType, types.MethodType)
+
+
+def reachable(root):
+    """every object reachable from root through attributes and containers (id -> object)"""
+    seen = {}
+    stack = [root]
+    while stack:
+        o = stack.pop()
+        if id(o) in seen or isinstance(o, _ATOMS):
+            continue
+        seen[id(o)] = o
+        if isinstance(o, dict):
+            stack.extend(o.keys())
+            stack.extend(o.values())
+        elif isinstance(o, (list, tuple, set, frozenset)):
+            stack.extend(o)
+        else:
+            d = getattr(o, "__dict__", None)
+            if isinstance(d, dict):
+                stack.extend(d.values())
+            for sl in getattr(type(o), "__slots__", ()) or ():
+                if hasattr(o, sl):
+                    stack.append(getattr(o, sl))
+    return seen
+
+
 def check_tree(tree, tag, rep):
     import fp
     fails = []
@@ -68,9 +97,21 @@ def check_tree(tree, tag, rep):
         ids1 = {id(n) for n in all_nodes(tree)}
         if any(id(n) in ids1 for n in all_nodes(t2)):
             fails.append((how + "_shares_nodes", "the copy shares node objects with the original", rep))
+        # nothing of fparser's own making (nodes, source items, readers) is reachable from both trees
+        ra, rb = reachable(tree), reachable(t2)
+        both = [o for k, o in rb.items() if k in ra and type(o).__module__.startswith("fparser")]
+        if both:
+            fails.append((how + "_shares_objects", "the copy reaches %d object(s) of the original, e.g. a %s"
+                          % (len(both), type(both[0]).__name__), rep))
         # modifying the copy leaves the original unchanged
         before = str(tree)
         for n in all_nodes(t2):
+            it = getattr(n, "item", None)
+            if it is not None:
+                if getattr(it, "label", None) is not None:
+                    it.label = 99999
+                if getattr(it, "name", None):
+                    it.name = "changedN"
             if isinstance(n, fp.F3.Name):
                 n.string = "changedX"
             if getattr(n, "content", None):
